@@ -262,6 +262,41 @@ def bases_events(ctx, quick):
 UPB_SCALE = 2000
 
 
+def wtype_events(ctx, quick):
+    """numqi.state.Wtype on Gaussian-integer coefficient vectors handed over in every dtype a caller may use; the ket rounded at scale
+    UPB_SCALE, TLC decides support, proportionality, unit norm and the positive real factor (WtypeOK)"""
+    import numqi
+    from .c10 import _g
+    rng = random.Random(ctx.seed + 18)
+    ev = []
+    vecs = [[(1, 0), (1, 0)], [(1, 0), (0, 1), (1, 0)], [(2, -1), (0, 0), (-1, 3)], [(0, 1), (0, -2), (3, 0), (1, 1)], [(-1, 0), (2, 0), (-3, 0), (1, 0), (2, 0)],
+            [(0, 2), (0, -1), (0, 3)]]
+    for n in range(2, 5 if quick else 7):
+        for _ in range(3 if quick else 12):
+            v = [(rng.randint(-4, 4), rng.randint(-4, 4) if rng.random() < 0.7 else 0) for _ in range(n)]
+            if any(x != (0, 0) for x in v):
+                vecs.append(v)
+    for v in vecs:
+        is_real = all(im == 0 for _, im in v)
+        arrs = [('complex128', np.array([complex(a, b) for a, b in v], dtype=np.complex128)), ('complex64', np.array([complex(a, b) for a, b in v], dtype=np.complex64))]
+        if is_real:
+            arrs += [('float64', np.array([float(a) for a, _ in v])), ('int64', np.array([a for a, _ in v], dtype=np.int64))]
+        for dt, arr in arrs:
+            ctx.case(('wtype', tuple(v), dt))
+            try:
+                keep = arr.copy()
+                out = np.asarray(numqi.state.Wtype(arr))
+                if not np.array_equal(keep, arr):
+                    ctx.violation('C18:Wtype:mutates-input', 'Wtype modified its coefficient vector', dict(c=v, dtype=dt))
+                if out.ndim != 1:
+                    ctx.violation('C18:Wtype:shape', 'Wtype did not return a vector', dict(c=v, dtype=dt))
+                    continue
+                ev.append(dict(op='wtype', c=[list(x) for x in v], dtype=dt, S=UPB_SCALE, v=_g(out, UPB_SCALE)))
+            except Exception as ex:
+                ctx.violation('C18:exception:Wtype', 'Wtype(%s as %s) raised %s: %s' % (v, dt, type(ex).__name__, str(ex)[:140]), dict(c=v, dtype=dt))
+    return ev
+
+
 def upbnum_events(ctx, quick):
     """bipartite UPB kinds whose vectors are not single-radical (Fourier vectors of the generalised tiles, quadratic residues): the outputs
     rounded at scale UPB_SCALE, validated by Trace_Catalogue 'upbnum' events; several sizes per kind incl. the smallest and larger ones"""
@@ -299,14 +334,14 @@ def run(ctx):
                 'closed-form REE/EOF/GME of Werner/isotropic states: exact zero on the separable range incl. the end point; the catalogued orthonormal measurement bases of numqi.unique_determine (Chebyshev 4PB/5PB, element-probing eq. 9) by rounded projectors with rank-one Gram certificates; distinct by (constructor, arguments)' % (3 if quick else 4, 4 if quick else 5))
     ctx.assumptions = ['TLC/SANY correct', 'tolerance 1e-12 on constructor entries']
     ctx.not_covered = ['multipartite UPB kinds with nested radicals or roots of unity (the bipartite ones are validated on rounded outputs: upbnum events)', 'agreement of the closed forms with the generic routines on the entangled range',
-                       'Wtype / Dicke constructors (Dicke is covered by C17)']
+                       'the Dicke constructor (covered by C17)']
     r = tlc.run('catalogue/MC_States.tla', 'catalogue/MC_States_%s.cfg' % ('q' if quick else 't'), dump=True, timeout=3000)
     ctx.add_model('MC_States', r)
     states = list(tlc.parse_dump(r))
     replay_states(ctx, states)
     ctx.traces += len(states)
     run_povm(ctx)
-    ev = upb_events(ctx) + closed_events(ctx) + bases_events(ctx, quick) + upbnum_events(ctx, quick)
+    ev = upb_events(ctx) + closed_events(ctx) + bases_events(ctx, quick) + upbnum_events(ctx, quick) + wtype_events(ctx, quick)
     acc, rej, results = tlc.validate_events('catalogue/Trace_Catalogue.tla', 'catalogue/Trace_Catalogue.cfg', ev, shards=8)
     for r in results:
         ctx.states += r.distinct
@@ -322,6 +357,9 @@ def run(ctx):
         elif e['op'] == 'bases':
             ctx.violation('C18:%s:bases' % e['fn'], '%s(d=%d, flag=%s, alpha=%s): not the documented number of orthonormal bases / a projector is not Hermitian rank-one PSD / a block is not orthogonal or does not resolve the identity'
                           % (e['fn'], e['d'], e['flag'], e['alpha']), dict(fn=e['fn'], d=e['d'], flag=e['flag'], alpha=e['alpha']))
+        elif e['op'] == 'wtype':
+            ctx.violation('C18:Wtype:%s' % ('complex' if e['dtype'].startswith('complex') and any(x[1] for x in e['c']) else 'real'),
+                          'Wtype(%s as %s) is not the unit-norm positive multiple of the coefficient vector on the single-excitation basis states' % (e['c'], e['dtype']), dict(c=e['c'], dtype=e['dtype']))
         elif e['op'] == 'closed_shape':
             ctx.violation('C18:%s:shape' % e['fn'], '%s(d=%d, alpha) on the entangled range is not a non-decreasing continuous function ending at the documented value' % (e['fn'], e['d']), {k: v for k, v in e.items() if k != 'vals'})
         elif e['op'] == 'closed_near':
